@@ -560,6 +560,10 @@ Theorem C10_drain_forgotten_Abs :
 Proof. exact (@drain_forgotten_Abs). Qed.
 Print Assumptions C10_drain_forgotten_Abs.
 
+(* NOTE (second audit): in C10_drain_then_run_refines the drain and the later
+   history share ONE environment E, and Lawful E excludes a panicking Drop, so its
+   Panic branch cannot be reached; the statement with an arbitrary Drop for the
+   drain is C10_drain_then_run_refines2 in the SECOND ROUND section below. *)
 (* mrun E debug ops w: the results of running the dictionary operations ops from
    world w; drun ck cq n ops d: the results of the ideal dictionary of capacity n
    started in state d (Proofs/Dict.v, C01) *)
@@ -679,3 +683,359 @@ Example C10_example_reuse :
   | _ => False
   end.
 Proof. vm_compute. split; reflexivity. Qed.
+
+(* ======================================================================== *)
+(* AUDIT CLOSURE, SECOND ROUND for C10 (Proofs/MoreIter.v)
+
+   VOCABULARY
+     cons_obs item l n     what n calls of next() on a consuming iterator that still
+                           holds the entries l (in yield order) report: per step
+                           [nn (length l); 1] ++ item p  (p the head of l, then the
+                           tail), and [0; 0] at and after exhaustion: the first
+                           number is len()/size_hint BEFORE the step = exactly the
+                           number of entries still to come
+     slot_pairs m c        the pairs in the slots [fst c, snd c) of m (IterSpec)
+     r_into kind p         what the caller receives: kind 0 the pair, 1 the key,
+                           2 the value;  into_evs sc kind p: the Drop events of the
+                           half next() destroys (kind 1 the value, 2 the key, 0 none)
+     rest_evs sc kind p    the Drop events of the half that was handed out;
+     count_evs = into_evs ++ rest_evs;  skey_evs p: Drop events of a Set element
+     evp E p               the Drop events of the stored pair p (key, then value)
+
+   (1) exact len()/size_hint before every step, INTERPRETER level:
+       C10_drain_steps_obs        Exec.drain_steps (Map::drain and Set::drain) from
+                                  any drain state (DrainInv): observations =
+                                  cons_obs of the pairs the cursor owns, cursor
+                                  advanced by min n (hi - lo), what it then owns =
+                                  skipn n; nothing else changes
+       C10_drain_session_steps_obs  from drain() itself: cons_obs of the content
+       C10_into_steps_obs         Exec.into_steps, kinds 0/1/2, every script: hint =
+                                  len of what the iterator still holds, items from the
+                                  back, the unused halves destroyed (log), prefix left;
+                                  panic clause when such a Drop panics at step t
+       C10_set_into_steps_obs     Exec.set_into_steps = Set::into_iter: the same
+                                  with item = key, nothing destroyed, no panic
+   (2) fates 2 (for_each(closure)) and 3 (count()):
+       C10_drain_count_exact      every environment: count = number of pairs left;
+                                  EVERY pair left is destroyed exactly once, in slot
+                                  order, whether count() returns or a Drop panics
+                                  (the unwinding Drain destroys the rest); register
+                                  empty, same capacity
+       C10_drain_for_each_exact   count = number left, the closure is called once per
+                                  pair (one EvCall 4 each), the Drain destroys
+                                  nothing; closure panics at pair t: called t+1 times,
+                                  pairs t.. destroyed once each, register empty
+       C10_into_count_exact       kinds 1/2 (and the default for 0): count = len;
+                                  every entry destroyed from the back, unused half
+                                  first; panic clause
+       C10_into_count0_exact      IntoIter::count override: reports len, then drops
+                                  the iterator (slot order)
+       C10_into_for_each_exact, C10_set_into_count_exact, C10_set_into_for_each_exact
+   (3) C10_drain_then_run_refines2  two environments: E (ANY Drop) for the drain,
+                                  Lawful E' for the history that follows: the Panic
+                                  branch is reachable (C10_example_reuse_after_panic)
+   (4) "None forever after the end" for IntoKeys / IntoValues:
+       C10_into_keys_next_end, C10_into_values_next_end   on an empty iterator
+                                  next() is None and the world is unchanged
+       C10_into_keys_fused, C10_into_values_fused   after a session of n >= len
+                                  steps every further next() is None
+   ======================================================================== *)
+
+Theorem C10_drain_steps_obs :
+  forall (V : Type) (rp : key * V -> list N) (n lo hi : nat) (acc : list N) (w : world key V cstate),
+    DrainInv (lo, hi) (self w) ->
+    wp (drain_steps rp n (lo, hi) acc)
+       (fun (r : list N * cursor) (w' : world key V cstate) =>
+          let m := Nat.min n (hi - lo) in
+          fst r = acc ++ cons_obs rp (slot_pairs (self w) (lo, hi)) n /\
+          snd r = (lo + m, hi) /\
+          DrainInv (snd r) (self w') /\
+          slot_pairs (self w') (snd r) = skipn n (slot_pairs (self w) (lo, hi)) /\
+          cb w' = cb w /\ log w' = log w /\ cap (self w') = cap (self w))
+       (fun _ : world key V cstate => False) w.
+Proof. exact (@drain_steps_obs). Qed.
+Print Assumptions C10_drain_steps_obs.
+
+Theorem C10_drain_session_steps_obs :
+  forall (V : Type) (rp : key * V -> list N) (n : nat) (w : world key V cstate),
+    WF (self w) ->
+    wp (c <- drain ;; drain_steps rp n c [])
+       (fun (r : list N * cursor) (w' : world key V cstate) =>
+          fst r = cons_obs rp (Spec.elems (self w)) n /\
+          snd r = (Nat.min n (len (self w)), len (self w)) /\
+          DrainInv (snd r) (self w') /\
+          slot_pairs (self w') (snd r) = skipn n (Spec.elems (self w)) /\
+          cb w' = cb w /\ log w' = log w /\ cap (self w') = cap (self w) /\ len (self w') = 0)
+       (fun _ : world key V cstate => False) w.
+Proof. exact (@drain_session_steps_obs). Qed.
+Print Assumptions C10_drain_session_steps_obs.
+
+Theorem C10_into_steps_obs :
+  forall (sc : script) (kind : N) (n : nat) (acc : list N) (w : world key vobj cstate),
+    WF (self w) ->
+    wp (into_steps sc kind n acc)
+       (fun (r : list N) (w' : world key vobj cstate) =>
+          let took := firstn n (rev (Spec.elems (self w))) in
+          r = acc ++ cons_obs (r_into kind) (rev (Spec.elems (self w))) n /\
+          log w' = log w ++ flat_map (into_evs sc kind) took /\
+          WF (self w') /\ cap (self w') = cap (self w) /\
+          len (self w') = len (self w) - Nat.min n (len (self w)) /\
+          Spec.elems (self w') =
+            firstn (len (self w) - Nat.min n (len (self w))) (Spec.elems (self w)))
+       (fun w' : world key vobj cstate =>
+          exists t : nat, t < Nat.min n (len (self w)) /\
+            let took := firstn (S t) (rev (Spec.elems (self w))) in
+            log w' = log w ++ flat_map (into_evs sc kind) took /\
+            WF (self w') /\ cap (self w') = cap (self w) /\
+            len (self w') = len (self w) - S t /\
+            Spec.elems (self w') = firstn (len (self w) - S t) (Spec.elems (self w)))
+       w.
+Proof. exact into_steps_obs. Qed.
+Print Assumptions C10_into_steps_obs.
+
+Theorem C10_set_into_steps_obs :
+  forall (n : nat) (acc : list N) (w : world key unit cstate),
+    WF (self w) ->
+    wp (set_into_steps n acc)
+       (fun (r : list N) (w' : world key unit cstate) =>
+          r = acc ++ cons_obs (fun p : key * unit => r_key (fst p)) (rev (Spec.elems (self w))) n /\
+          log w' = log w /\ cb w' = cb w /\
+          WF (self w') /\ cap (self w') = cap (self w) /\
+          len (self w') = len (self w) - Nat.min n (len (self w)) /\
+          Spec.elems (self w') =
+            firstn (len (self w) - Nat.min n (len (self w))) (Spec.elems (self w)))
+       (fun _ : world key unit cstate => False) w.
+Proof. exact set_into_steps_obs. Qed.
+Print Assumptions C10_set_into_steps_obs.
+
+(* ---- fate 3 / fate 2 of a Drain ---- *)
+Theorem C10_drain_count_exact :
+  forall (V : Type) (E : env key V query cstate) (c : cursor) (cnt : nat) (w : world key V cstate),
+    DrainInv c (self w) ->
+    let post := fun w' : world key V cstate =>
+      log w' = log w ++ flat_map (evp E) (slot_pairs (self w) c) /\
+      len (self w') = 0 /\ cap (self w') = cap (self w) in
+    wp (drain_count E (S (cursor_len c)) c cnt)
+       (fun (n : nat) (w' : world key V cstate) => n = cnt + cursor_len c /\ post w') post w.
+Proof. exact (@drain_count_exact). Qed.
+Print Assumptions C10_drain_count_exact.
+
+Theorem C10_drain_for_each_exact :
+  forall (V : Type) (E : env key V query cstate) (cl : cstate -> ans * cstate)
+         (c : cursor) (cnt : nat) (w : world key V cstate),
+    DrainInv c (self w) ->
+    wp (drain_for_each E cl (S (cursor_len c)) c cnt)
+       (fun (n : nat) (w' : world key V cstate) =>
+          n = cnt + cursor_len c /\
+          log w' = log w ++ repeat (EvCall 4) (cursor_len c) /\
+          len (self w') = 0 /\ cap (self w') = cap (self w))
+       (fun w' : world key V cstate =>
+          exists t : nat, t < cursor_len c /\
+            log w' = log w ++ repeat (EvCall 4) (S t) ++
+                     flat_map (evp E) (skipn t (slot_pairs (self w) c)) /\
+            len (self w') = 0 /\ cap (self w') = cap (self w))
+       w.
+Proof. exact (@drain_for_each_exact). Qed.
+Print Assumptions C10_drain_for_each_exact.
+
+(* ---- fate 3 / fate 2 of the consuming iterators ---- *)
+Theorem C10_into_count_exact :
+  forall (sc : script) (kind : N) (cnt : nat) (w : world key vobj cstate),
+    WF (self w) ->
+    wp (into_count sc kind (S (len (self w))) cnt)
+       (fun (n : nat) (w' : world key vobj cstate) =>
+          n = cnt + len (self w) /\
+          log w' = log w ++ flat_map (count_evs sc kind) (rev (Spec.elems (self w))) /\
+          WF (self w') /\ len (self w') = 0 /\ cap (self w') = cap (self w))
+       (fun w' : world key vobj cstate =>
+          exists (t : nat) (p : key * vobj) (part : list event),
+            nth_error (rev (Spec.elems (self w))) t = Some p /\
+            (part = into_evs sc kind p \/ part = count_evs sc kind p) /\
+            log w' = log w ++ flat_map (count_evs sc kind) (firstn t (rev (Spec.elems (self w)))) ++ part /\
+            WF (self w') /\ cap (self w') = cap (self w) /\
+            len (self w') = len (self w) - S t /\
+            Spec.elems (self w') = firstn (len (self w) - S t) (Spec.elems (self w)))
+       w.
+Proof. exact into_count_exact. Qed.
+Print Assumptions C10_into_count_exact.
+
+Theorem C10_into_count0_exact :
+  forall (sc : script) (w : world key vobj cstate),
+    WF (self w) ->
+    wp (l <- get_len ;; drop_map (env_map sc) ;; ret [nn l])
+       (fun (r : list N) (w' : world key vobj cstate) =>
+          r = [nn (len (self w))] /\
+          log w' = log w ++ flat_map (evp (env_map sc)) (Spec.elems (self w)))
+       (fun w' : world key vobj cstate =>
+          exists k : nat, log w' = log w ++ flat_map (evp (env_map sc)) (firstn k (Spec.elems (self w))))
+       w.
+Proof. exact into_count0_exact. Qed.
+Print Assumptions C10_into_count0_exact.
+
+Theorem C10_into_for_each_exact :
+  forall (sc : script) (kind : N) (cnt : nat) (w : world key vobj cstate),
+    WF (self w) ->
+    wp (into_for_each sc kind (S (len (self w))) cnt)
+       (fun (n : nat) (w' : world key vobj cstate) =>
+          n = cnt + len (self w) /\
+          log w' = log w ++ flat_map (fun p => into_evs sc kind p ++ [EvCall 4]) (rev (Spec.elems (self w))) /\
+          WF (self w') /\ len (self w') = 0 /\ cap (self w') = cap (self w))
+       (fun w' : world key vobj cstate =>
+          exists (t : nat) (p : key * vobj) (part : list event),
+            nth_error (rev (Spec.elems (self w))) t = Some p /\
+            (part = into_evs sc kind p \/
+             part = into_evs sc kind p ++ [EvCall 4] ++ rest_evs sc kind p) /\
+            log w' = log w ++ flat_map (fun p => into_evs sc kind p ++ [EvCall 4])
+                                       (firstn t (rev (Spec.elems (self w)))) ++ part /\
+            WF (self w') /\ cap (self w') = cap (self w) /\
+            len (self w') = len (self w) - S t /\
+            Spec.elems (self w') = firstn (len (self w) - S t) (Spec.elems (self w)))
+       w.
+Proof. exact into_for_each_exact. Qed.
+Print Assumptions C10_into_for_each_exact.
+
+Theorem C10_set_into_count_exact :
+  forall (sc : script) (cnt : nat) (w : world key unit cstate),
+    WF (self w) ->
+    wp (set_into_count sc (S (len (self w))) cnt)
+       (fun (n : nat) (w' : world key unit cstate) =>
+          n = cnt + len (self w) /\
+          log w' = log w ++ flat_map (skey_evs sc) (rev (Spec.elems (self w))) /\
+          WF (self w') /\ len (self w') = 0 /\ cap (self w') = cap (self w))
+       (fun w' : world key unit cstate =>
+          exists t : nat, t < len (self w) /\
+            log w' = log w ++ flat_map (skey_evs sc) (firstn (S t) (rev (Spec.elems (self w)))) /\
+            WF (self w') /\ cap (self w') = cap (self w) /\
+            len (self w') = len (self w) - S t /\
+            Spec.elems (self w') = firstn (len (self w) - S t) (Spec.elems (self w)))
+       w.
+Proof. exact set_into_count_exact. Qed.
+Print Assumptions C10_set_into_count_exact.
+
+Theorem C10_set_into_for_each_exact :
+  forall (sc : script) (cnt : nat) (w : world key unit cstate),
+    WF (self w) ->
+    wp (set_into_for_each sc (S (len (self w))) cnt)
+       (fun (n : nat) (w' : world key unit cstate) =>
+          n = cnt + len (self w) /\
+          log w' = log w ++ repeat (EvCall 4) (len (self w)) /\
+          WF (self w') /\ len (self w') = 0 /\ cap (self w') = cap (self w))
+       (fun w' : world key unit cstate =>
+          exists (t : nat) (p : key * unit),
+            nth_error (rev (Spec.elems (self w))) t = Some p /\
+            log w' = log w ++ repeat (EvCall 4) (S t) ++ skey_evs sc p /\
+            WF (self w') /\ cap (self w') = cap (self w) /\
+            len (self w') = len (self w) - S t /\
+            Spec.elems (self w') = firstn (len (self w) - S t) (Spec.elems (self w)))
+       w.
+Proof. exact set_into_for_each_exact. Qed.
+Print Assumptions C10_set_into_for_each_exact.
+
+(* ---- (3) reuse after a drain whose Drop may panic ---- *)
+Theorem C10_drain_then_run_refines2 :
+  forall (K V Q T : Type) (E E' : env K V Q T) (debug : bool) (ck : K -> N) (cq : Q -> N),
+    Lawful E' ck cq ->
+    forall (take : nat) (ops : list (@dop K V Q)) (w : world K V T),
+    WF (self w) ->
+    match (c <- drain ;; r <- drain_run take c ;; drain_drop E (snd r)) w with
+    | Ok _ w' | Panic w' =>
+        cap (self w') = cap (self w) /\
+        mrun E' debug ops w' = drun ck cq (cap (self w)) ops [] /\
+        (forall (s : T) (lg : list event),
+           mrun E' debug ops w' =
+           mrun E' debug ops {| cb := s; log := lg; self := new_map (cap (self w)) |})
+    | UB => False
+    end.
+Proof. exact (@drain_then_run_refines2). Qed.
+Print Assumptions C10_drain_then_run_refines2.
+
+(* ---- (4) None forever ---- *)
+Theorem C10_into_keys_next_end :
+  forall (K V Q T : Type) (E : env K V Q T) (w : world K V T),
+    len (self w) = 0 -> into_keys_next E w = Ok None w.
+Proof. exact (@into_keys_next_end). Qed.
+Print Assumptions C10_into_keys_next_end.
+
+Theorem C10_into_values_next_end :
+  forall (K V Q T : Type) (E : env K V Q T) (w : world K V T),
+    len (self w) = 0 -> into_values_next E w = Ok None w.
+Proof. exact (@into_values_next_end). Qed.
+Print Assumptions C10_into_values_next_end.
+
+Theorem C10_into_keys_fused :
+  forall (K V Q T : Type) (E : env K V Q T) (n : nat) (w : world K V T),
+    WF (self w) -> len (self w) <= n ->
+    wp (into_keys_run E n)
+       (fun (_ : list K) (w' : world K V T) =>
+          len (self w') = 0 /\ into_keys_next E w' = Ok None w' /\
+          forall m : nat, into_keys_run E m w' = Ok [] w')
+       (fun _ : world K V T => True) w.
+Proof. exact (@into_keys_fused). Qed.
+Print Assumptions C10_into_keys_fused.
+
+Theorem C10_into_values_fused :
+  forall (K V Q T : Type) (E : env K V Q T) (n : nat) (w : world K V T),
+    WF (self w) -> len (self w) <= n ->
+    wp (into_values_run E n)
+       (fun (_ : list V) (w' : world K V T) =>
+          len (self w') = 0 /\ into_values_next E w' = Ok None w' /\
+          forall m : nat, into_values_run E m w' = Ok [] w')
+       (fun _ : world K V T => True) w.
+Proof. exact (@into_values_fused). Qed.
+Print Assumptions C10_into_values_fused.
+
+(* ---------------------------------------------------------------------- *)
+(* non-vacuity                                                              *)
+(* ---------------------------------------------------------------------- *)
+
+(* the PANIC branch of C10_drain_then_run_refines2 is reached: Drop of object 3
+   (the key of entry 1) panics while the drain is dropped; the later history under
+   the lawful environment behaves like on a fresh Map of capacity 3 *)
+Example C10_example_reuse_after_panic :
+  let ops := [DInsert (k_ 11 5) (v_ 12 1); DGet (QCls 5); DContains (QCls 6)] in
+  match (c <- drain ;; r <- drain_run 1 c ;; drain_drop (env_map (sc_drop 3)) (snd r)) (w_of m3) with
+  | Panic w' =>
+      mrun (env_map C10_sc0) false ops w'
+      = mrun (env_map C10_sc0) false ops {| cb := cs0; log := []; self := new_map 3 |} /\
+      mrun (env_map C10_sc0) false ops w' = [RNone; RVal (v_ 12 1); RBool false]
+  | _ => False
+  end.
+Proof. vm_compute. split; reflexivity. Qed.
+
+(* observations: drain over m3, 4 steps: hints 3 2 1 0 0; into_keys (kind 1):
+   hints 3 2, keys of entries 2 and 1, values 6 and 4 destroyed *)
+Example C10_example_obs :
+  match (c <- drain ;; drain_steps r_pair 4 c []) (w_of m3) with
+  | Ok r w' => fst r = [3; 1; 1; 5; 2; 7;  2; 1; 3; 6; 4; 8;  1; 1; 5; 7; 6; 9;  0; 0]%N /\ snd r = (3, 3)
+  | _ => False
+  end /\
+  match into_steps (sc_drop 0) 1 2 [] (w_of m3) with
+  | Ok r w' => r = [3; 1; 5; 7;  2; 1; 3; 6]%N /\ log w' = [EvDrop 6; EvDrop 4] /\ len (self w') = 1
+  | _ => False
+  end /\
+  cons_obs r_pair (Spec.elems m3) 4 = [3; 1; 1; 5; 2; 7;  2; 1; 3; 6; 4; 8;  1; 1; 5; 7; 6; 9;  0; 0]%N.
+Proof. vm_compute. repeat split; reflexivity. Qed.
+
+(* count() and for_each on the Drain over m3 after one next(): count = 2;
+   count() destroys both remaining pairs; with a Drop that panics on object 3 the
+   same four objects are destroyed (by count and by the unwinding Drain);
+   for_each calls the closure twice and destroys nothing *)
+Example C10_example_fates :
+  match (c <- drain ;; r <- drain_run 1 c ;; drain_count (env_map (sc_drop 0)) 3 (snd r) 0) (w_of m3) with
+  | Ok n w' => n = 2 /\ log w' = [EvDrop 3; EvDrop 4; EvDrop 5; EvDrop 6] /\ len (self w') = 0
+  | _ => False
+  end /\
+  match (c <- drain ;; r <- drain_run 1 c ;; drain_count (env_map (sc_drop 3)) 3 (snd r) 0) (w_of m3) with
+  | Panic w' => log w' = [EvDrop 3; EvDrop 4; EvDrop 5; EvDrop 6] /\ len (self w') = 0
+  | _ => False
+  end /\
+  match (c <- drain ;; r <- drain_run 1 c ;;
+         drain_for_each (env_map (sc_drop 0)) (nx_cb (sc_drop 0)) 3 (snd r) 0) (w_of m3) with
+  | Ok n w' => n = 2 /\ log w' = [EvCall 4; EvCall 4] /\ len (self w') = 0
+  | _ => False
+  end /\
+  match into_count (sc_drop 0) 1 4 0 (w_of m3) with
+  | Ok n w' => n = 3 /\ log w' = [EvDrop 6; EvDrop 5; EvDrop 4; EvDrop 3; EvDrop 2; EvDrop 1]
+  | _ => False
+  end.
+Proof. vm_compute. repeat split; reflexivity. Qed.
